@@ -265,6 +265,10 @@ func checkC06(c *fw.Ctx) {
 		c.Min("3 success VerifyAllEventSignatures per-event sites", n, 1)
 	}
 
+	// 3c. what a nil result of the key ring means (shared with C12.1): a request is marked
+	// verified only behind key present, key valid at the time, VerifyJSON nil
+	checkUsingKeysRule(c)
+
 	// 4. version columns + wrappers
 	checkVersionMatrix(c, "4 version-columns", setOf("signatureValidityCheckFunc", "restrictedJoinServernameFunc", "eventIDFormat"))
 	for spec, field := range map[string]string{"(RoomVersionImpl).SignatureValidityCheck": "signatureValidityCheckFunc", "(RoomVersionImpl).RestrictedJoinServername": "restrictedJoinServernameFunc"} {
